@@ -255,6 +255,16 @@ func init() {
 	// ---- inpub: well-formed inbound PUBLISH delivered with exactly its fields ----
 	register(&funcEngine{name: "inpub",
 		gen: func(rng *rand.Rand, tier string, n int, emit func(string)) {
+			// topics at the top of the 16-bit length range, and a packet that only announces such a topic
+			for _, l := range []int{65533, 65534, 65535} {
+				for _, qos := range []byte{0, 1} {
+					p := specPublish(strings.Repeat("t", l), []byte{1, 2}, qos, false, false, 9)
+					hl := headerLen(p)
+					emit(fmt.Sprintf("@parse %d %d %s", 0x30, p[0]&0x0f, descBytes(p[hl:])))
+				}
+				emit(fmt.Sprintf("@parse %d %d %04x", 0x30, 0, l))
+				emit(fmt.Sprintf("@parse %d %d %04x61", 0x30, 2, l))
+			}
 			for i := 0; i < n; i++ {
 				topic := strings.ReplaceAll(string(randTopic(rng)), "\x00", "")
 				qos := byte(rng.Intn(3))
@@ -287,6 +297,15 @@ func init() {
 			emit("-")
 			emit("00")
 			emit("0005616263")
+			// length prefixes at the top of the 16-bit range: exact, one short, with trailing bytes, and with almost nothing behind
+			for _, l := range []int{65533, 65534, 65535} {
+				pre := fmt.Sprintf("%04x", l)
+				emit(fmt.Sprintf("%s+rep:61:%d", pre, l))
+				emit(fmt.Sprintf("%s+rep:61:%d+0102", pre, l))
+				emit(fmt.Sprintf("%s+rep:61:%d", pre, l-1))
+				emit(pre)
+				emit(pre + "61")
+			}
 			for i := 0; i < n; i++ {
 				k := rng.Intn(6)
 				body := make([]byte, k)
